@@ -682,6 +682,48 @@ def run(ctx):
                 r.bad("casegate|" + fld, "is_fixed_strings can answer true with %s set: the literal route skips the translator, the "
                       "only place that folds case, so lines differing in case from the pattern are dropped" % fld, fn=f,
                       construct="is_fixed_strings")
+    with ctx.rule("C01.PATTERNS", "patterns given by -e/-f are only de-duplicated by exact text: the dedup key is the pattern itself",
+                  floor=1, kind="FLOW") as r:
+        # two patterns that differ in anything (case included: \\S / \\s, (?-i:Foo) / foo) are different regexes under every
+        # option, so a key that is any function of the pattern other than the identity drops an alternative
+        ident = ("core::clone::Clone::clone", "alloc::string::String::as_str", "core::ops::deref::Deref::deref",
+                 "alloc::borrow::ToOwned::to_owned", "alloc::string::ToString::to_string", "core::convert::AsRef::as_ref",
+                 "core::borrow::Borrow::borrow", "core::convert::From::from", "core::convert::Into::into",
+                 "alloc::string::String::as_bytes", "alloc::string::String::into_bytes", "alloc::string::String::into_boxed_str",
+                 "alloc::str::<impl str>::to_owned", "alloc::str::<impl alloc::borrow::ToOwned for str>::to_owned")
+
+        def root(e):
+            while True:
+                e = strip(e)
+                if isinstance(e, X) and e.k == "call" and e[1] in ident and e[3]:
+                    e = e[3][0]
+                    continue
+                return e
+        facts = ctx.facts
+        fns = [f for n, f in sorted(facts.fns.items()) if n.startswith("rg::flags::hiargs::Patterns::from_low_args")]
+        if not fns:
+            r.bad("dedup|shape", "anchor-missing: Patterns::from_low_args", fn=None)
+        nkeys = 0
+        for f in fns:
+            eb = ExprBuilder(f)
+            keyed = [c for c in f.calls() if c.path.startswith(("std::collections::hash::set::HashSet::", "std::collections::hash::map::HashMap::",
+                                                                   "alloc::collections::btree::set::BTreeSet::", "alloc::collections::btree::map::BTreeMap::"))
+                     and c.path.rsplit("::", 1)[1] in ("contains", "insert", "get", "replace", "contains_key", "entry", "take", "remove")]
+            pushes = [c for c in f.calls() if c.path == "alloc::vec::Vec::push"]
+            if not keyed:
+                continue
+            proots = {show(root(eb.operand(c.args[1]))) for c in pushes}
+            for c in keyed:
+                nkeys += 1
+                k = show(root(eb.operand(c.args[1])))
+                if len(proots) == 1 and k in proots:
+                    r.ok("dedup|key|%s" % c.path.rsplit("::", 1)[1], "key of `%s` is the kept pattern itself" % c.path.rsplit("::", 2)[-2], fn=f)
+                else:
+                    r.bad("dedup|key|%s" % c.path.rsplit("::", 1)[1], "patterns are de-duplicated by %s, not by their own text (kept: %s): a pattern "
+                          "that differs from an earlier one only in what the key ignores is dropped, and the lines only it matches "
+                          "are no longer reported" % (k[:80], sorted(proots)), fn=f, loc=c.loc, construct="dedup")
+        if fns and not nkeys:
+            r.ok("dedup|none", "no de-duplication of patterns", fn=fns[0])
     with ctx.rule("C01.STRIPHIR", "terminator stripped from the pattern whenever configured; effective terminator stored", floor=8,
                   kind="PASS/GUARD") as r:
         striphir_rule(ctx, r)
